@@ -112,6 +112,18 @@ pub fn build_recipe(r: &J) -> String {
             let e = format!("{{{{ {}1{}{} }}}}", rep("(", p), rep(" + 1", 254 - p), rep(")", p));
             format!("{}{{% if a %}}x{}{}{{% endif %}}{}", rep("{% if a %}", n), rep("{% elif a %}y", 499), e, rep("{% endif %}", n))
         }
+        "nest:elif-chains" => {
+            // n chains of m elifs, each chain written in the body of the LAST elif of the previous one: every
+            // chain stays under MAX_ELIF_DEPTH and the tag nesting under MAX_RECURSION_DEPTH, but the parse_if
+            // frames accumulate (n x m) unless the elif counter is shared along the nesting path
+            let m = r["m"].as_u64().unwrap_or(490) as usize;
+            format!("{}y{}", rep(&format!("{{% if a %}}x{}", rep("{% elif a %}x", m)), n), rep("{% endif %}", n))
+        }
+        "nest:elif-chains-else" => {
+            // same, the inner chain sits in the else branch
+            let m = r["m"].as_u64().unwrap_or(490) as usize;
+            format!("{}y{}", rep(&format!("{{% if a %}}x{}{{% else %}}", rep("{% elif a %}x", m)), n), rep("{% endif %}", n))
+        }
         "chain:elif" => format!("{{% if a %}}x{}{{% endif %}}", rep("{% elif a %}y", n)),
         "chain:filter" => format!("{{{{ a{} }}}}", rep(" | upper", n)),
         "chain:attr" => format!("{{{{ a{} }}}}", rep(".b", n)),
@@ -365,10 +377,21 @@ pub fn oracle_inputs(rng: &mut Rng, thorough: bool) -> Vec<Input> {
     for n in [0usize, 10, 20, 30, 35, 36, 37] {
         out.push(recipe_input("nesting", "worst:combined", n));
     }
+    for (n, m) in [(2usize, 250usize), (2, 251), (2, 490), (3, 490), (10, 490), (30, 490), (38, 490), (38, 500), (5, 100), (6, 100)] {
+        for kind in ["nest:elif-chains", "nest:elif-chains-else"] {
+            let r = json!({"kind": kind, "n": n, "m": m});
+            let mut i = Input::new("nesting", format!("{kind}:{n}x{m}"), build_recipe(&r));
+            i.recipe = r;
+            out.push(i);
+        }
+    }
     // 4. chains (not nestings)
     let cs: Vec<usize> = if thorough { vec![10, 100, 250, 500, 1000, 2000, 5000, 10_000, 100_000] } else { vec![10, 250, 1000, 100_000] };
     for kind in CHAIN_KINDS {
+        let deep = DEEP_CHAINS.contains(&kind);
         for &n in &cs {
+            // flat constructs are fully parsed, compiled and rendered: 10^5 of them only in the thorough tier
+            let n = if !deep && !thorough && n > 20_000 { 20_000 } else { n };
             out.push(recipe_input("chain", kind, n));
         }
     }
